@@ -216,6 +216,18 @@ Section Layout.
     forall w n j h, rplus o (rplus o w (unitv o n j h)) (unitv o n j (sneg o h)) = w.
   Definition restore_ok : Prop := fix_restore o = true \/ exact_group.
 
+  (** [o] is an instance of the code as it is in /repo now: its version flags are the ones the model file records
+      ([c08_fix_restore], [c08_fix_k2jac]; the correspondence run checks them against the real code every time).
+      For such an instance [restore_ok] needs no assumption on the group operations: the arguments are assigned
+      back from saved copies. *)
+  Definition current_code : Prop := fix_restore o = c08_fix_restore /\ fix_k2jac o = c08_fix_k2jac.
+
+  Lemma current_code_restore_ok : current_code -> restore_ok.
+  Proof. intros [Hr _]. left. exact Hr. Qed.
+
+  Lemma current_code_k2jac : current_code -> fix_k2jac o = true.
+  Proof. intros [_ Hj]. exact Hj. Qed.
+
   Lemma restore_bump : restore_ok -> forall xs i n j h,
     restore o i (getx o i xs) n j h (bump o i n j h xs) = xs.
   Proof.
@@ -718,7 +730,8 @@ Section TopLevel.
     subst xred. rewrite (quot2_subset o (c_f c) x Hnd Hin) by assumption. split; [reflexivity | discriminate].
   Qed.
 
-  (** ** every argument holds its original value after the call (exact group model / repaired code) *)
+  (** ** every argument holds its original value after the call (parametrised model: exact group operations, or
+      restore from a saved copy; [restore_exact_current] below is the statement about the code as it is) *)
   Theorem restore_exact : forall (K : nat) (c : Callable) (x : list X) (idx : list nat) (consts : list bool),
     K = 1 \/ K = 2 -> restore_ok o -> length consts = length x ->
     (forall out, dr o K Numerical c x = Some out -> o_args out = x /\ caller_view consts x (o_args out) = x) /\
@@ -751,6 +764,89 @@ Section TopLevel.
         destruct (k2_characterisation JT HT (fun red => c_f c (scatter idx red x)) xred Hok) as [_ [Ha _]].
         rewrite Ha. apply scatter_self.
   Qed.
+
+  (** ** The same statements for the code as it is now ([current_code]): no hypothesis on the group operations, and
+      the J output of the K = 2 routine has the first-order step [eps]. *)
+  Theorem k1_characterisation_current : forall (f : list X -> Y) (x : list X),
+    current_code o ->
+    let out := dr_numerical JT HT o 1 f x in
+    o_val out = f x /\ o_args out = x /\ o_H out = None /\
+    exists J, o_J out = Some (JNum JT J) /\ length J = sum_dof o x /\
+      (forall i j, i < length x -> j < dofX o (getx o i x) ->
+                   getJ J (offset o x i + j) = Some (quot1 o (eps o) f x i j)) /\
+      (forall c, c < sum_dof o x -> exists i j, i < length x /\ j < dofX o (getx o i x) /\ c = offset o x i + j).
+  Proof. intros f x Hc. exact (k1_characterisation JT HT f x (current_code_restore_ok Hc)). Qed.
+
+  Theorem k2_characterisation_current : forall (f : list X -> Y) (x : list X),
+    current_code o ->
+    let out := dr_numerical JT HT o 2 f x in
+    let nx := sum_dof o x in
+    let ny := dofY o (f x) in
+    o_val out = f x /\ o_args out = x /\
+    exists J H, o_J out = Some (JNum JT J) /\ o_H out = Some (HNum HT H) /\
+      length J = nx /\ length H = nx /\ (forall r, r < nx -> length (nth r H []) = nx * ny) /\
+      (forall i j, i < length x -> j < dofX o (getx o i x) ->
+         getJ J (offset o x i + j) = Some (quot1 o (eps o) f x i j)) /\
+      (forall i0 k0 i1 k1 j, i0 < length x -> i1 < length x ->
+         k0 < dofX o (getx o i0 x) -> k1 < dofX o (getx o i1 x) -> j < ny ->
+         getH H (offset o x i0 + k0) (j * nx + offset o x i1 + k1)
+         = Some (nth j (quot2 o f x i0 k0 i1 k1) (szero o))).
+  Proof.
+    intros f x Hc.
+    pose proof (k2_characterisation JT HT f x (current_code_restore_ok Hc)) as H.
+    rewrite (current_code_k2jac Hc) in H. exact H.
+  Qed.
+
+  (** the first-derivative output of the K = 2 routine IS the output of the K = 1 routine *)
+  Theorem k2_jac_is_k1_jac : forall (f : list X -> Y) (x : list X),
+    current_code o ->
+    exists J1 J2, o_J (dr_numerical JT HT o 1 f x) = Some (JNum JT J1) /\
+                  o_J (dr_numerical JT HT o 2 f x) = Some (JNum JT J2) /\
+                  length J1 = length J2 /\
+                  forall c, c < sum_dof o x -> getJ J1 c = getJ J2 c /\ getJ J2 c <> None.
+  Proof.
+    intros f x Hc.
+    destruct (k1_characterisation_current f x Hc) as [_ [_ [_ [J1 [HJ1 [Hl1 [Hg1 Hs]]]]]]].
+    destruct (k2_characterisation_current f x Hc) as [_ [_ [J2 [H2 [HJ2 [_ [Hl2 [_ [_ [Hg2 _]]]]]]]]]].
+    exists J1, J2. split; [exact HJ1|]. split; [exact HJ2|]. split; [now rewrite Hl1, Hl2|].
+    intros c Hlt. destruct (Hs c Hlt) as [i [j [Hi [Hj ->]]]].
+    rewrite Hg1, Hg2 by assumption. split; [reflexivity | discriminate].
+  Qed.
+
+  Theorem jac_columns_current : forall (K : nat) (c : Callable) (x : list X) (idx : list nat),
+    K = 1 \/ K = 2 -> current_code o -> NoDup idx -> Forall (fun i => i < length x) idx ->
+    let xred := map (fun i => getx o i x) idx in
+    exists osub ofull Jsub Jfull,
+      dr_idx o K Numerical c x idx = Some osub /\ dr o K Numerical c x = Some ofull /\
+      o_J osub = Some (JNum JT Jsub) /\ o_J ofull = Some (JNum JT Jfull) /\
+      o_val osub = o_val ofull /\ o_args osub = x /\ o_args ofull = x /\
+      length Jsub = sum_dof o xred /\ length Jfull = sum_dof o x /\
+      forall k j, k < length idx -> j < dofX o (getx o (nth k idx 0) x) ->
+        getJ Jsub (offset o xred k + j) = getJ Jfull (offset o x (nth k idx 0) + j) /\
+        getJ Jsub (offset o xred k + j) <> None.
+  Proof. intros K c x idx HK Hc. exact (jac_columns c x HK (current_code_restore_ok Hc)). Qed.
+
+  Theorem hess_subset_current : forall (c : Callable) (x : list X) (idx : list nat),
+    current_code o -> NoDup idx -> Forall (fun i => i < length x) idx ->
+    let xred := map (fun i => getx o i x) idx in
+    let ny := dofY o (c_f c x) in
+    exists osub ofull Hsub Hfull,
+      dr_idx o 2 Numerical c x idx = Some osub /\ dr o 2 Numerical c x = Some ofull /\
+      o_H osub = Some (HNum HT Hsub) /\ o_H ofull = Some (HNum HT Hfull) /\
+      forall k0 c0 k1 c1 j, k0 < length idx -> k1 < length idx ->
+        c0 < dofX o (getx o (nth k0 idx 0) x) -> c1 < dofX o (getx o (nth k1 idx 0) x) -> j < ny ->
+        getH Hsub (offset o xred k0 + c0) (j * sum_dof o xred + offset o xred k1 + c1)
+        = getH Hfull (offset o x (nth k0 idx 0) + c0) (j * sum_dof o x + offset o x (nth k1 idx 0) + c1) /\
+        getH Hsub (offset o xred k0 + c0) (j * sum_dof o xred + offset o xred k1 + c1) <> None.
+  Proof. intros c x idx Hc. exact (hess_subset c x (current_code_restore_ok Hc)). Qed.
+
+  (** every argument holds its original value after the call - whatever [rplus] does (rounding, non-commutative
+      group, ...): NO exact-group hypothesis *)
+  Theorem restore_exact_current : forall (K : nat) (c : Callable) (x : list X) (idx : list nat) (consts : list bool),
+    K = 1 \/ K = 2 -> current_code o -> length consts = length x ->
+    (forall out, dr o K Numerical c x = Some out -> o_args out = x /\ caller_view consts x (o_args out) = x) /\
+    (forall out, dr_idx o K Numerical c x idx = Some out -> o_args out = x).
+  Proof. intros K c x idx consts HK Hc. exact (restore_exact c x idx consts HK (current_code_restore_ok Hc)). Qed.
 
   (** ** Analytic mode, and Default mode when the callable provides them: the callable's own results, verbatim *)
   Theorem analytic_passthrough : forall (c : Callable) (x : list X) jac hess,
@@ -803,7 +899,8 @@ Section TopLevel.
   Qed.
 End TopLevel.
 
-(** ** non-vacuity: the hypotheses are satisfiable; a rounding [rplus] refutes exact restoration for the current code *)
+(** ** non-vacuity: the hypotheses are satisfiable (also by an [rplus] that rounds); historical: a rounding [rplus]
+    refutes exact restoration for the code before 59fd5d3 ([fix_restore = false]) *)
 From Coq Require Import ZArith.
 
 Section Instances.
@@ -827,11 +924,18 @@ Section Instances.
     destruct (Nat.eqb 0 j); lia.
   Qed.
 
-  Example restore_ok_sat_current_code : restore_ok (z_ops false false false 1).
+  Example restore_ok_sat_old_code : restore_ok (z_ops false false false 1).
   Proof. right. apply z_exact_group. Qed.
 
   Example restore_ok_sat_repaired_code : restore_ok (z_ops true true true 2).
   Proof. now left. Qed.
+
+  (** the current code, on the toy floating-point grid (an [rplus] that is NOT an exact group operation) *)
+  Example current_code_sat : current_code (z_ops true true true 2).
+  Proof. split; reflexivity. Qed.
+
+  Example current_code_not_exact_group : ~ exact_group (z_ops true true true 2).
+  Proof. intros H. specialize (H 7 1%nat 0%nat 2). vm_compute in H. discriminate. Qed.
 
   Definition z_f (xs : list Z) : list Z := [nth 0%nat xs 0 * nth 1%nat xs 0; nth 0%nat xs 0 + 3 * nth 1%nat xs 0].
 
@@ -848,17 +952,27 @@ Section Instances.
     = Some (mkOut [15; 18] (Some (JNum unit [Some [3; 3]])) None [3; 5]).
   Proof. vm_compute. reflexivity. Qed.
 
-  (** The clause "every argument holds its original value" is FALSE of the current code (restore by inverse
-      perturbation) as soon as [rplus] rounds: 7 (+) 2 = 9 -> 8, 8 (+) -2 = 6. *)
+  (** HISTORICAL (finding C08-restore-drift, fixed by 59fd5d3).  The clause "every argument holds its original
+      value" was FALSE of the code that restored by the inverse perturbation ([fix_restore = false]) as soon as
+      [rplus] rounds: 7 (+) 2 = 9 -> 8, 8 (+) -2 = 6.  It is not a statement about the current code
+      ([current_code] requires [fix_restore = true]; see [restore_exact_current], [k2_run_current]). *)
   Theorem restore_inexact_refuted :
     exists (o : Ops Z Z (list Z)) (f : list Z -> list Z) (x : list Z),
       fix_restore o = false /\ o_args (dr_numerical unit unit o 1 f x) <> x.
   Proof. exists (z_ops true false false 2), z_f, [7; 1]. split; [reflexivity|]. vm_compute. discriminate. Qed.
 
-  (** ... and TRUE of the repaired code on the same rounding model (instance of [restore_exact]) *)
+  (** ... and TRUE of the current code on the same rounding model (instance of [restore_exact_current]) *)
   Example restore_repaired_on_rounding_model :
-    o_args (dr_numerical unit unit (z_ops true true false 2) 1 z_f [7; 1]) = [7; 1].
+    o_args (dr_numerical unit unit (z_ops true true true 2) 1 z_f [7; 1]) = [7; 1].
   Proof. vm_compute. reflexivity. Qed.
+
+  (** a concrete run of the current code on that grid: f(a,b) = (a*b, a+3b) at (7,1), step 2; the K = 2 routine returns
+      the K = 1 Jacobian and hands (7,1) back although 7 (+) 2 (+) -2 = 6 there *)
+  Example k2_run_current :
+    let o := z_ops true true true 2 in
+    o_args (dr_numerical unit unit o 2 z_f [7; 1]) = [7; 1] /\
+    o_J (dr_numerical unit unit o 2 z_f [7; 1]) = o_J (dr_numerical unit unit o 1 z_f [7; 1]).
+  Proof. vm_compute. split; reflexivity. Qed.
 End Instances.
 
 (** the extracted Q instance runs (polynomial map, mixed vector / scalar arguments) *)
@@ -869,3 +983,7 @@ Example q_instance_runs :
   | None => False
   end.
 Proof. vm_compute. split; reflexivity. Qed.
+
+(** ... and it is an instance of the current code *)
+Example q_ops_current_code : current_code q_ops.
+Proof. split; reflexivity. Qed.
